@@ -363,3 +363,93 @@ MUTANTS = [
     M("vanish-got-full-servermap", REP, "    def _got_full_servermap(self, smap, force):", "    def _got_full_servermapX(self, smap, force):",
       "ANALYSIS-ERROR"),
 ]
+
+
+# ---- C14.11: the ServerMap queries refactored onto a per-version helper / shares_available() (seeded C14-I) ------
+_SA_DEF = "    def shares_available(self):\n"
+_HELPER = ("    def _shnums_by_version(self):\n"
+           "        shnums = {}\n"
+           "        for ( (server, shnum), (verinfo, timestamp) ) in self._known_shares.items():\n"
+           "            %s\n"
+           "        return shnums\n\n")
+_OLD_SA = ("        versionmap = self.make_versionmap()\n        all_shares = {}\n        for verinfo, shares in list(versionmap.items()):\n"
+           "            s = set()\n            for (shnum, server, timestamp) in shares:\n                s.add(shnum)\n"
+           "            (seqnum, root_hash, IV, segsize, datalength, k, N, prefix,\n             offsets_tuple) = verinfo\n"
+           "            all_shares[verinfo] = (len(s), k, N)\n        return all_shares\n")
+_NEW_SA = ("        all_shares = {}\n        for verinfo, shnums in self._shnums_by_version().items():\n"
+           "            (seqnum, root_hash, IV, segsize, datalength, k, N, prefix,\n             offsets_tuple) = verinfo\n"
+           "            all_shares[verinfo] = (len(shnums), k, N)\n        return all_shares\n")
+_OLD_REC = ("        versionmap = self.make_versionmap()\n        recoverable_versions = set()\n"
+            "        for (verinfo, shares) in list(versionmap.items()):\n"
+            "            (seqnum, root_hash, IV, segsize, datalength, k, N, prefix,\n             offsets_tuple) = verinfo\n"
+            "            shnums = set([shnum for (shnum, server, timestamp) in shares])\n"
+            "            if len(shnums) >= k:\n                # this one is recoverable\n                recoverable_versions.add(verinfo)\n\n"
+            "        return recoverable_versions\n")
+_NEW_REC = ("        return set([verinfo\n                    for (verinfo, (found, k, N))\n"
+            "                    in self.shares_available().items()\n                    if found %s k])\n")
+_OLD_UNREC = ("        versionmap = self.make_versionmap()\n\n        unrecoverable_versions = set()\n"
+              "        for (verinfo, shares) in list(versionmap.items()):\n"
+              "            (seqnum, root_hash, IV, segsize, datalength, k, N, prefix,\n             offsets_tuple) = verinfo\n"
+              "            shnums = set([shnum for (shnum, server, timestamp) in shares])\n"
+              "            if len(shnums) < k:\n                unrecoverable_versions.add(verinfo)\n\n"
+              "        return unrecoverable_versions\n")
+_OLD_NEWER = ("        versionmap = self.make_versionmap()\n        healths = {} # maps verinfo to (found,k)\n        unrecoverable = set()\n"
+              "        highest_recoverable_seqnum = -1\n        for (verinfo, shares) in list(versionmap.items()):\n"
+              "            (seqnum, root_hash, IV, segsize, datalength, k, N, prefix,\n             offsets_tuple) = verinfo\n"
+              "            shnums = set([shnum for (shnum, server, timestamp) in shares])\n"
+              "            healths[verinfo] = (len(shnums),k)\n            if len(shnums) < k:\n                unrecoverable.add(verinfo)\n"
+              "            else:\n                highest_recoverable_seqnum = max(seqnum,\n"
+              "                                                 highest_recoverable_seqnum)\n\n"
+              "        newversions = {}\n        for verinfo in unrecoverable:\n"
+              "            (seqnum, root_hash, IV, segsize, datalength, k, N, prefix,\n             offsets_tuple) = verinfo\n"
+              "            if seqnum > highest_recoverable_seqnum:\n                newversions[verinfo] = healths[verinfo]\n\n"
+              "        return newversions\n")
+_NEW_NEWER = ("        available = self.shares_available()\n"
+              "        highest_recoverable_seqnum = max([verinfo[0]\n                                          for (verinfo, (found, k, N))\n"
+              "                                          in available.items()%s],\n                                         default=-1)\n"
+              "        newversions = {} # maps verinfo to (found,k)\n        for (verinfo, (found, k, N)) in available.items():\n"
+              "            if found < k and verinfo[0] > highest_recoverable_seqnum:\n                newversions[verinfo] = (found, k)\n"
+              "        return newversions\n")
+_GE_ONLY = "\n                                          if found >= k"
+
+
+def _refactor(mid, expect, fill="shnums.setdefault(verinfo, set()).add(shnum)", helper=None, rec_op=">=", bound_filter=_GE_ONLY):
+    """The C14-I refactor (helper + shares_available + the three classifiers as comprehensions over shares_available());
+    `fill` is how the helper files a share, which is where the seeded slip sits."""
+    return M(mid, SM, _SA_DEF, (helper or (_HELPER % fill)) + _SA_DEF, expect, edits=[
+        (SM, _OLD_SA, _NEW_SA), (SM, _OLD_REC, _NEW_REC % rec_op), (SM, _OLD_UNREC, _NEW_REC % "<"),
+        (SM, _OLD_NEWER, _NEW_NEWER % bound_filter)])
+
+
+MUTANTS += [
+    # the seeded slip: the helper collects the share numbers in a list where every replaced loop built a set
+    _refactor("queries-refactored-shnums-in-list", "C14.11", fill="shnums.setdefault(verinfo, []).append(shnum)"),
+    # same effect, other edit: a set, but of (shnum, server) placements
+    _refactor("queries-refactored-set-of-placements", "C14.11", fill="shnums.setdefault(verinfo, set()).add((shnum, server))"),
+    # same effect: the helper is a dict comprehension over the version map that keeps a list per version
+    _refactor("queries-refactored-list-comprehension", "C14.11",
+              helper="    def _shnums_by_version(self):\n        return {verinfo: [shnum for (shnum, server, timestamp) in shares]\n"
+                     "                for (verinfo, shares) in self.make_versionmap().items()}\n\n"),
+    # other slips of the same translation
+    _refactor("queries-refactored-recoverable-gt", "C14.11", rec_op=">"),
+    _refactor("queries-refactored-bound-over-all-versions", "C14.11", bound_filter=""),
+    _refactor("queries-refactored-bound-over-unrecoverable", "C14.11", bound_filter="\n                                          if found < k"),
+    M("recoverable-comprehension-counts-placements", SM, _OLD_REC,
+      "        return set(verinfo for (verinfo, shares) in self.make_versionmap().items() if len(shares) >= verinfo[5])\n", "C14.11"),
+    # the same refactor done faithfully
+    _refactor("queries-refactored-faithfully", None),
+    _refactor("queries-refactored-faithfully-dict-comprehension", None,
+              helper="    def _shnums_by_version(self):\n        return {verinfo: set(shnum for (shnum, server, timestamp) in shares)\n"
+                     "                for (verinfo, shares) in self.make_versionmap().items()}\n\n"),
+    _refactor("queries-refactored-faithfully-defaultdict", None,
+              helper="    def _shnums_by_version(self):\n        shnums = defaultdict(set)\n"
+                     "        for ( (server, shnum), (verinfo, timestamp) ) in self._known_shares.items():\n"
+                     "            shnums[verinfo].add(shnum)\n        return shnums\n\n"),
+    M("recoverable-benign-comprehension-over-available", SM, _OLD_REC, _NEW_REC % ">=", None),
+    # fail closed: a helper the evaluation cannot follow (a hand-rolled distinct list) is not waved through
+    _refactor("queries-refactored-helper-not-followed", "ANALYSIS-ERROR",
+              fill="if shnum not in shnums.setdefault(verinfo, []):\n                shnums[verinfo].append(shnum)"),
+    M("recoverable-benign-comprehension-over-versionmap", SM, _OLD_REC,
+      "        return set(verinfo for (verinfo, shares) in self.make_versionmap().items()\n"
+      "                   if len(set(shnum for (shnum, server, timestamp) in shares)) >= verinfo[5])\n", None),
+]
